@@ -2,13 +2,15 @@
 # save_mutant.sh <ID> <name>: store a confirmed seeded change under /verif/seeded/<name>/
 id=$1; name=${2:-$1}
 d=/verif/seeded/$name; mkdir -p $d
-cp /tmp/mut/$id.patch.diff $d/patch.diff
-cp /tmp/mut/$id.demo.sh $d/demo.sh
+cp ${MUTBASE:-/tmp/mut}/$id.patch.diff $d/patch.diff
+cp ${MUTBASE:-/tmp/mut}/$id.demo.sh $d/demo.sh
 python3 - "$id" "$name" <<'PY'
 import json,sys
 id,name=sys.argv[1],sys.argv[2]
-m=json.load(open('/tmp/mut/%s.meta.json'%id))
-res=open('/tmp/mut/%s.result.txt'%id).read().strip().split('\n')
+import os
+base=os.environ.get('MUTBASE','/tmp/mut')
+m=json.load(open('%s/%s.meta.json'%(base,id)))
+res=open('%s/%s.result.txt'%(base,id)).read().strip().split('\n')
 m['confirmed']={"ran":"tools/try_mutant.sh (scratch worktree with the patch applied; go test of the repository; demo with unchanged and changed binary; bin/check with VERIF_REPO=<worktree>)","result":res}
 m['demo']='demo.sh'
 json.dump(m,open('/verif/seeded/%s/meta.json'%name,'w'),indent=1)
